@@ -281,6 +281,49 @@ Definition group_nodes (o : opts) (nodes : list node) : list node :=
 Definition first_alloc (n : node) : qty * qty :=
   (match n_cpu n with Some q => q | None => qty0 end, match n_mem n with Some q => q | None => qty0 end).
 
+(* the action part of a scan: the decision d0 is known, the triggers may raise it, force removal runs first, then
+   the scale-down / scale-up / reaper branch (controller.go:394-459) *)
+Definition scan_act (e : env) (o : opts) (mn maxn : Z) (dry : bool) (st2 : gstate) (a : option asg)
+           (pods : list pod) (untainted tainted forced : list node) (lag : list call) (tg0 : list Z)
+           (us : usage) (cap : capacity) (d0 : Z) (from_zero : bool) : gresult :=
+  let starve := scale_on_starve o maxn us cap untainted in
+  let d1 := if starve then Z.max d0 1 else d0 in
+  let aged := scale_on_max_age e o mn untainted tainted in
+  let d2 := if aged then Z.max d1 1 else d1 in
+  let tg := (if starve then [T_starve] else []) ++ (if aged then [T_max_age] else [])
+            ++ (if from_zero then [T_from_zero] else []) ++ tg0 in
+  (* force removal: errors are logged only *)
+  let '(fcalls, ferr, a1) := try_delete_nodes e a (force_candidates dry pods forced) in
+  let tg := (match ferr with Some _ => [T_force_err] | None => [] end)
+            ++ (match fcalls with [] => [] | _ => [T_force_removed] end) ++ tg in
+  if d2 <? 0 then
+    (* ScaleDown: reap, then taint *)
+    let '(rcalls, rerr, a2) := try_delete_nodes e a1 (reap_candidates e o dry pods tainted) in
+    match rerr with
+    | Some ErrNotInGroup => mk (T_fatal :: tg) (lag ++ fcalls ++ rcalls) OutFatal 0 st2 a2
+    | _ =>
+      let '(tcalls, terr, st3) := scale_down_taint e o mn dry st2 untainted (- d2) in
+      mk ((if d0 =? - o_fast o then T_fast else T_slow) :: (if terr then [T_action_err] else [])
+          ++ (match rcalls with [] => [] | _ => [T_reaped] end) ++ tg)
+         (lag ++ fcalls ++ rcalls ++ tcalls) OutOk d2 st3 a2
+    end
+  else if 0 <? d2 then
+    let r := scale_up e o maxn dry st2 a1 tainted d2 in
+    let st3 := with_last_out (up_state r) (Some (e_now e)) in
+    match up_out r with
+    | OutExit => mk (T_exit :: tg) (lag ++ fcalls ++ up_calls r) OutExit 0 st3 (up_asg r)
+    | OutErr => mk (T_up :: T_action_err :: tg) (lag ++ fcalls ++ up_calls r) OutOk d2 st3 (up_asg r)
+    | _ => mk (T_up :: tg) (lag ++ fcalls ++ up_calls r) OutOk d2 st3 (up_asg r)
+    end
+  else
+    let '(rcalls, rerr, a2) := try_delete_nodes e a1 (reap_candidates e o dry pods tainted) in
+    match rerr with
+    | Some ErrNotInGroup => mk (T_fatal :: tg) (lag ++ fcalls ++ rcalls) OutFatal 0 st2 a2
+    | _ => mk (T_noop :: (match rerr with Some _ => [T_action_err] | None => [] end)
+               ++ (match rcalls with [] => [] | _ => [T_reaped] end) ++ tg)
+              (lag ++ fcalls ++ rcalls) OutOk d2 st2 a2
+    end.
+
 (* min / max are the effective values (after auto-discovery) *)
 Definition scan_group (e : env) (o : opts) (min maxn : Z) (st : gstate) (a : option asg)
            (all_nodes : list node) (all_pods : list pod) : gresult :=
@@ -301,7 +344,9 @@ Definition scan_group (e : env) (o : opts) (min maxn : Z) (st : gstate) (a : opt
     else
       let us := pods_usage pods in
       let cap := nodes_capacity untainted pods in
-      let '(locked, lk) := lock_check (g_lock st1) (e_now e) (o_cool o) in
+      let lkr := lock_check (g_lock st1) (e_now e) (o_cool o) in
+      let locked := fst lkr in
+      let lk := snd lkr in
       let st2 := with_lock st1 lk in
       if negb locked && (zlen untainted <? min) then
         let r := scale_up e o maxn dry st2 a tainted (min - zlen untainted) in
@@ -317,44 +362,7 @@ Definition scan_group (e : env) (o : opts) (min maxn : Z) (st : gstate) (a : opt
             let lag := liftA (registration_lag_calls e st2 nodes) in
             match decide o st2 cpuP memP cpuReq memReq untainted with
             | DeltaErr d => mk (T_delta_err :: tg) lag OutErr d st2 a
-            | DeltaOk d0 =>
-              let starve := scale_on_starve o maxn us cap untainted in
-              let d1 := if starve then Z.max d0 1 else d0 in
-              let aged := scale_on_max_age e o min untainted tainted in
-              let d2 := if aged then Z.max d1 1 else d1 in
-              let tg := (if starve then [T_starve] else []) ++ (if aged then [T_max_age] else [])
-                        ++ (if feq cpuP f_max then [T_from_zero] else []) ++ tg in
-              (* force removal: errors are logged only *)
-              let '(fcalls, ferr, a1) := try_delete_nodes e a (force_candidates dry pods forced) in
-              let tg := (match ferr with Some _ => [T_force_err] | None => [] end)
-                        ++ (match fcalls with [] => [] | _ => [T_force_removed] end) ++ tg in
-              if d2 <? 0 then
-                (* ScaleDown: reap, then taint *)
-                let '(rcalls, rerr, a2) := try_delete_nodes e a1 (reap_candidates e o dry pods tainted) in
-                match rerr with
-                | Some ErrNotInGroup => mk (T_fatal :: tg) (lag ++ fcalls ++ rcalls) OutFatal 0 st2 a2
-                | _ =>
-                  let '(tcalls, terr, st3) := scale_down_taint e o min dry st2 untainted (- d2) in
-                  mk ((if d0 =? - o_fast o then T_fast else T_slow) :: (if terr then [T_action_err] else [])
-                      ++ (match rcalls with [] => [] | _ => [T_reaped] end) ++ tg)
-                     (lag ++ fcalls ++ rcalls ++ tcalls) OutOk d2 st3 a2
-                end
-              else if 0 <? d2 then
-                let r := scale_up e o maxn dry st2 a1 tainted d2 in
-                let st3 := with_last_out (up_state r) (Some (e_now e)) in
-                match up_out r with
-                | OutExit => mk (T_exit :: tg) (lag ++ fcalls ++ up_calls r) OutExit 0 st3 (up_asg r)
-                | OutErr => mk (T_up :: T_action_err :: tg) (lag ++ fcalls ++ up_calls r) OutOk d2 st3 (up_asg r)
-                | _ => mk (T_up :: tg) (lag ++ fcalls ++ up_calls r) OutOk d2 st3 (up_asg r)
-                end
-              else
-                let '(rcalls, rerr, a2) := try_delete_nodes e a1 (reap_candidates e o dry pods tainted) in
-                match rerr with
-                | Some ErrNotInGroup => mk (T_fatal :: tg) (lag ++ fcalls ++ rcalls) OutFatal 0 st2 a2
-                | _ => mk (T_noop :: (match rerr with Some _ => [T_action_err] | None => [] end)
-                           ++ (match rcalls with [] => [] | _ => [T_reaped] end) ++ tg)
-                          (lag ++ fcalls ++ rcalls) OutOk d2 st2 a2
-                end
+            | DeltaOk d0 => scan_act e o min maxn dry st2 a pods untainted tainted forced lag tg us cap d0 (feq cpuP f_max)
             end
         end
   end.
